@@ -15,7 +15,7 @@ through hook H21 on the same lines.  Page contents are tags (`Nat`).
   `lc insert <shard> <pn> <tag>` · `lc evict`
 * `lcq get|insert|evict1 …`: replay of the leaf-cache calls recorded from a REAL store (`caches-db`): results only
 * `ps new` · `ps restart <0|1>` · `ps insert <pid> <tag> <bucket>` · `ps get <pid>` · `ps contains <pid>`
-* `flags <insertLt 0|1> <leafSkipFull 0|1>`: switch the mirror to a seeded variant
+* `flags <insertLt 0|1> <leafSkipFull 0|1> [<f25ZeroLimitUnwrap 0|1>]`: switch the mirror to a seeded / pre-repair variant
 dump: `root=<e>[ limits=<v*n,…>] <i>:F[<pid=tag/bucket,…>]L[…]` for the non-empty shards (pinned map sorted by page id,
 LRU most recently used first); leaf dump `[max=<v*n,…>] <i>:[pn=tag,…]`.
 -/
@@ -82,10 +82,12 @@ def parseBatch (s : String) : Option (List (PageId × Option (Entry Nat))) :=
 def cachesStep (st : CaSt) (line : String) : CaSt × String :=
   match fields line with
   | ["flags", a, b] => ({ st with q := { insertLt := a == "1", leafSkipFull := b == "1" } }, "ok")
+  | ["flags", a, b, c] =>
+    ({ st with q := { insertLt := a == "1", leafSkipFull := b == "1", f25ZeroLimitUnwrap := c == "1" } }, "ok")
   | ["pc", "new", dbg, n, size, fl, root] =>
     match n.toNat?, size.toNat?, fl.toNat?, parseEnt root with
     | some n, some size, some fl, some root =>
-      match PageCache.new (dbg == "1") root n size fl with
+      match PageCache.new st.q (dbg == "1") root n size fl with
       | .ok pc => ({ st with pc := some pc }, s!"ok {pcDump pc true}")
       | _ => ({ st with pc := none }, "panic")
     | _, _, _, _ => (st, "parse error")
